@@ -1,6 +1,7 @@
 package lincon
 
 import (
+	"go/constant"
 	"go/token"
 	"fmt"
 	"go/types"
@@ -508,8 +509,30 @@ func init() {
 		a.set(s, ctx, v, AOther{})
 		return []*State{s}
 	}
+	// IndexByte / LastIndexByte with a constant byte: not found (-1), or found
+	// at r with s[r] == c
+	idxByte := func(a *Analyzer, ctx int, v *ssa.Call, s *State) []*State {
+		x, ok := a.strArg(s, ctx, v.Call.Args[0])
+		c, isK := v.Call.Args[1].(*ssa.Const)
+		if !a.IndexByteFacts || !ok || !isK || c.Value == nil || x.bytes {
+			return idx(0)(a, ctx, v, s)
+		}
+		cv, exact := constant.Int64Val(constant.ToInt(c.Value))
+		if !exact || cv < 0 || cv > 255 {
+			return idx(0)(a, ctx, v, s)
+		}
+		t1 := s.clone()
+		a.set(t1, ctx, v, AInt{konst(-1)})
+		t2 := s
+		r := a.freshFor(t2, ctx, v).(AInt)
+		t2.addLE(r.l.scale(-1))            // r >= 0
+		t2.addLE(r.l.sub(x.n).addK(1))     // r <= len-1
+		a.addByteFact(t2, ByteFact{obj: x.obj, off: x.off.add(r.l), val: byte(cv), eq: true})
+		a.set(t2, ctx, v, r)
+		return []*State{t1, t2}
+	}
 	summaries = map[string]summary{
-		"strings.IndexByte": idx(0), "strings.LastIndexByte": idx(0), "strings.Index": idx(0),
+		"strings.IndexByte": idxByte, "strings.LastIndexByte": idxByte, "strings.Index": idx(0),
 		"strings.IndexAny": idx(0), "strings.IndexFunc": idx(0), "strings.IndexRune": idx(0), "strings.LastIndex": idx(0),
 		"bytes.IndexByte": idx(0), "bytes.IndexAny": idx(0), "bytes.LastIndexByte": idx(0), "bytes.Index": idx(0),
 		"strings.HasPrefix": boolSum, "strings.HasSuffix": boolSum, "strings.Contains": boolSum,
